@@ -8,11 +8,13 @@ package c11
 import (
 	"context"
 	"encoding/json"
+	"encoding/pem"
 	"errors"
 	"fmt"
 	"io"
 	"net/http"
 	"os"
+	"path/filepath"
 	"sort"
 	"strings"
 	"sync"
@@ -28,6 +30,7 @@ import (
 	"github.com/dadrus/heimdall/internal/rules/mechanisms/finalizers"
 	"github.com/dadrus/heimdall/internal/rules/mechanisms/subject"
 	"github.com/dadrus/heimdall/internal/watcher"
+	"github.com/dadrus/heimdall/internal/x/testsupport"
 	"github.com/dadrus/heimdall/verifharness/c10"
 )
 
@@ -539,6 +542,10 @@ func introspection(p Pair, side int, base string) (evalFn, error) {
 // JWKMaterial are the keys shared by all pairs (created once per process).
 type JWKMaterial struct {
 	K1, K2, K3, KX, KY *c10.SigKey
+	// KC carries a certificate of the test CA; OtherTrust is a trust store (PEM file) that holds
+	// another CA only
+	KC         *c10.SigKey
+	OtherTrust string
 }
 
 func NewJWKMaterial(pki *c10.PKI) (*JWKMaterial, error) {
@@ -556,13 +563,29 @@ func NewJWKMaterial(pki *c10.PKI) (*JWKMaterial, error) {
 		*e.dst = k
 	}
 
+	var err error
+	if m.KC, err = pki.NewKey("kc", true, time.Now().Add(time.Hour)); err != nil {
+		return nil, err
+	}
+
+	other, err := testsupport.NewRootCA("another CA", 24*time.Hour) //nolint:mnd
+	if err != nil {
+		return nil, err
+	}
+
+	m.OtherTrust = filepath.Join(pki.Dir, "other-trust.pem")
+	if err = os.WriteFile(m.OtherTrust,
+		pem.EncodeToMemory(&pem.Block{Type: "CERTIFICATE", Bytes: other.Certificate.Raw}), 0o600); err != nil {
+		return nil, err
+	}
+
 	return m, nil
 }
 
 // Documents returns the JWKS documents by request URI.
 func (m *JWKMaterial) Documents() map[string][]byte {
 	return map[string][]byte{
-		"/jwks?iss=iA":  c10.JWKS(m.K1, m.K2, m.KX),
+		"/jwks?iss=iA":  c10.JWKS(m.K1, m.K2, m.KX, m.KC),
 		"/jwks?iss=iB":  c10.JWKS(m.K3),
 		"/jwks?iss=iAB": c10.JWKS(m.KY),
 	}
@@ -595,12 +618,25 @@ func jwtJWK(p Pair, side int, base string, km *JWKMaterial) (evalFn, error) {
 		epConf["headers"] = kvMap(h)
 	}
 
+	mconf := config.MechanismConfig{
+		"jwks_endpoint": epConf,
+		"assertions":    map[string]any{"issuers": strs("iA", "iB", "iAB")},
+		"cache_ttl":     "30s",
+	}
+
+	if p.Comp == "jwk_validation" {
+		// the key comes with a certificate: the first authenticator does not look at it, the second one
+		// validates it against a trust store that does not know its issuer
+		key, kid = km.KC, "kc"
+		mconf["validate_jwk"] = false
+
+		if is(p, side, "differ", "jwk_validation") {
+			mconf["validate_jwk"], mconf["trust_store"] = true, km.OtherTrust
+		}
+	}
+
 	f, err := c10.NewFactory(&config.MechanismPrototypes{Authenticators: []config.Mechanism{{
-		ID: "m", Type: "jwt", Config: config.MechanismConfig{
-			"jwks_endpoint": epConf,
-			"assertions":    map[string]any{"issuers": strs("iA", "iB", "iAB")},
-			"cache_ttl":     "30s",
-		},
+		ID: "m", Type: "jwt", Config: mconf,
 	}}})
 	if err != nil {
 		return nil, err
